@@ -56,7 +56,29 @@ def run(rep, tier):
         rep.rule('R6', '"the sequence of procedure entries in a trace equals the call sequence of the source": every call statement generates a '
                  'transfer of control to its callee, whatever the callee\'s body is (import of C01-R15, call-statement instances)', floor=2)
         c01.rule_variable_slots(_report.Import(rep, 'R6', 'C01', key_filter=lambda r, k: k.startswith('call statement')), cast.load('xcmp.cpp'))
-    for fn, a in ((rule_calls_not_elided, (rep,)), (rule_prefix, (rep, idx)), (rule_format, (rep, idx)), (rule_symbols, (rep,)), (rule_lookup, (rep, idx)), (rule_symbol_offset, (rep, idx))):
+    def rule_every_proc_listed(rep):
+        """Compiler side of "the symbol table lists every procedure and function of the program once": code generation for a Proc node
+        reaches the prologue directive (which lowering turns into the PROC / FUNC directive the assembler records) on every path."""
+        from .. import flow
+        rep.rule('R7', 'every procedure of the source gets its PROC/FUNC directive: CodeGen::visitPre(Proc&) reaches genPrologue on every path '
+                 '(no procedure is skipped, e.g. because nothing calls it), and lowering turns every prologue into genProc/genFunc', floor=2)
+        ix = cast.load('xcmp.cpp')
+        f = ix.func('xcmp::CodeGen::visitPre', 'Proc')
+
+        class C(flow.Client):
+            def expr(self_, e, s_):
+                return [s_ or any(callee_of(c)[1] == 'genPrologue' for c in cast.calls_in(e))]
+        o = flow.Flow(C(), ix).run(f.body, {False})
+        exits = set(o.normal) | {s_ for s_, _ in o.ret}
+        rep.add('R7', 'CodeGen::visitPre(Proc):prologue-on-every-path', bool(exits) and all(exits), pos(f.node) + ' ' + f.qname,
+                'genPrologue is reached on every path' if exits and all(exits) else
+                'code generation for a procedure can return without emitting its prologue: the procedure gets no PROC/FUNC directive and is '
+                'missing from the symbol table of the binary')
+        low = [g for g in ix.all_funcs() if g.qname.startswith('xcmp::LowerDirectives') and g.body is not None and
+               any(callee_of(c)[1] in ('genProc', 'genFunc') for c in cast.calls_in(g.body))]
+        rep.add('R7', 'LowerDirectives:prologue-to-PROC/FUNC', bool(low), low[0].qname if low else 'xcmp::LowerDirectives',
+                'lowering emits genProc / genFunc' if low else 'no genProc / genFunc in LowerDirectives', nontrivial=False)
+    for fn, a in ((rule_calls_not_elided, (rep,)), (rule_every_proc_listed, (rep,)), (rule_prefix, (rep, idx)), (rule_format, (rep, idx)), (rule_symbols, (rep,)), (rule_lookup, (rep, idx)), (rule_symbol_offset, (rep, idx))):
         try:
             fn(*a)
         except AnalysisBroken as e:
